@@ -38,6 +38,9 @@ ASSUMPTIONS = [
     "one composition dict assigned directly to several components' p.numberDensities (the route updateNumberDensities' "
     "docstring names) is an input real callers make; area modifications follow doc/user/inputs.rst ('<name>.add' / '<name>.sub', "
     "referenced component defined first) and are previewed at a temperature inside both materials' windows",
+    "temperatures where a material's own linearExpansionPercent is exactly 0.0 (found once per material: reference "
+    "temperatures and float-precision roots between sign changes, inside the declared closed window; 13 of the 24 expanding "
+    "solids have one) are deliberate Tinput, intermediate and end points of the paths",
     "absolute number densities at construction are not judged (they carry the documented axial factor); only "
     "ratios between states of one component, and equality between a path and a single jump",
     "components with a linked dimension are not expected to conserve their own mass (their area follows the "
@@ -213,8 +216,73 @@ def _window(mat, kind):
     return 20.0, 600.0, False
 
 
-def _temp(lo, hi, u):
-    """Fraction of the window -> temperature in C; the sentinel -1 means exactly 0.0 C when the window holds it."""
+_ZEROS = {}
+
+
+def _zeros(name):
+    """Temperatures (C) inside the material's declared (closed) window where its linearExpansionPercent is EXACTLY 0.0:
+    reference temperatures of the correlations and float-precision roots between sign changes on a grid.  Once per
+    process and material."""
+    if name in _ZEROS:
+        return _ZEROS[name]
+    mat = _make_material(name, None)
+    lo, hi, stated = _window(mat, "solid")
+    if stated:
+        lo, hi = lo - 1e-6, hi + 1e-6  # the declared bounds themselves are valid temperatures
+    unit_k, lo_k, hi_k = False, None, None
+    for k in _EXP_KEYS:
+        if k in mat.propertyValidTemperature:
+            (a, b), unit = mat.propertyValidTemperature[k]
+            unit_k, lo_k, hi_k = unit == "K", float(a), float(b)
+            break
+
+    def inside(t):
+        if unit_k:
+            return lo_k <= t + 273.15 <= hi_k
+        return lo <= t <= hi
+
+    def dll(t):
+        return float(mat.linearExpansionPercent(Tc=t))
+
+    cands = [0.0, 20.0, 21.0, 21.1, 21.11, 25.0, 26.85, 24.85, 19.85, 293.15 - 273.15, 298.15 - 273.15, 300.0 - 273.15,
+             298.0 - 273.15, 293.0 - 273.15, 273.15 - 273.15, lo, hi]
+    ref_k = getattr(mat, "refTempK", None)
+    if ref_k is not None:
+        cands += [float(ref_k) - 273.15]
+    # bisection to adjacent floats between sign changes on a grid
+    n = 400
+    grid = [lo + (hi - lo) * i / n for i in range(n + 1)]
+    vals = [dll(t) if inside(t) else None for t in grid]
+    for (ta, va), (tb, vb) in zip(zip(grid, vals), zip(grid[1:], vals[1:])):
+        if va is None or vb is None or va == 0.0 or vb == 0.0 or (va > 0) == (vb > 0):
+            continue
+        a, b = ta, tb
+        for _ in range(200):
+            m = 0.5 * (a + b)
+            if m == a or m == b:
+                break
+            vm = dll(m)
+            if vm == 0.0:
+                a = b = m
+                break
+            if (vm > 0) == (va > 0):
+                a = m
+            else:
+                b = m
+        cands += [a, b]
+    found = []
+    for t in sorted({float(t) for t in cands + grid if inside(t) and dll(t) == 0.0}):
+        if not found or t - found[-1] > 1e-6:  # neighbouring floats of one zero count once
+            found.append(t)
+    _ZEROS[name] = found
+    return found
+
+
+def _temp(lo, hi, u, zeros=()):
+    """Fraction of the window -> temperature in C.  Sentinels: -1 = exactly 0.0 C when the window holds it;
+    -2, -3, ... = the first, second, ... temperature where the material's dLL is exactly zero (window bottom if none)."""
+    if u <= -2:
+        return zeros[(int(-u) - 2) % len(zeros)] if zeros else lo
     if u < 0:
         return 0.0 if lo <= 0.0 <= hi else lo
     return lo + float(u) * (hi - lo)
@@ -326,9 +394,10 @@ def single_execute(case):
 
     lo, hi, stated = _window(mat, kind)
     out.label("range:stated" if stated else "range:none-stated")
+    zeros = _zeros(name) if kind == "solid" else ()
 
     def temp(u):
-        return _temp(lo, hi, u)
+        return _temp(lo, hi, u, zeros)
 
     ops = list(case["path"])
     if case.get("excluded"):
@@ -615,6 +684,13 @@ def single_execute(case):
     else:
         out.nontrivial = any(abs(a - b) >= 50.0 for a, b in zip(temps, temps[1:]))
     out.label("T-steps:%d" % min(n_t, 6))
+    if zeros:
+        if temps[-1] in zeros and n_t:
+            out.label("exact-dLL-zero:path-end")
+        elif any(t in zeros for t in temps[1:]):
+            out.label("exact-dLL-zero:intermediate")
+        if t_in in zeros:
+            out.label("exact-dLL-zero:Tinput")
     return out
 
 
@@ -649,12 +725,12 @@ def _nomodel(out, comp, case, temp, names, cold, shape, name):
 
 _GRID_N = {"quick": 5, "thorough": 200}
 _GRID_NF = {"quick": 2, "thorough": 40}
-_SPECIAL = [0.0, 1.0, 0.5, -1.0]
+_SPECIAL = [0.0, 1.0, 0.5, -1.0, -2.0]
 
 
 def _frac(*key):
     u = _u(*key)
-    if u < 0.16:
+    if u < 0.20:
         return _SPECIAL[int(u / 0.04)]
     return _u(*key + ("v",))
 
@@ -666,6 +742,11 @@ def _grid_case(seed, shape, name, k):
         return {"shape": shape, "material": name, "scale": 1.0, "q": [0.5, 0.5, 0.5, 0.5], "mult": 7, "nHoles": 7,
                 "tin": 0.0, "t0": 0.5, "mods": None, "parent": True, "height": 10.0, "extra": {"pin": 3, "det": 0, "u": 0.5},
                 "path": [{"op": "T", "u": 1.0}, {"op": "T", "u": 0.0}, {"op": "hot", "d": 0, "u": 0.5}, {"op": "T", "u": 0.7}]}
+    if k == 1:
+        # input exactly where the material's own correlation is zero, heat up, come back to exactly that temperature, twice
+        return {"shape": shape, "material": name, "scale": 2.0, "q": [0.4, 0.3, 0.6, 0.5], "mult": 19, "nHoles": 3,
+                "tin": -2.0, "t0": 0.5, "mods": None, "parent": True, "height": 7.5, "extra": {"pin": 0, "det": 5, "u": 0.25},
+                "path": [{"op": "T", "u": -2.0}, {"op": "T", "u": 1.0}, {"op": "T", "u": -2.0}, {"op": "T", "u": 0.3}, {"op": "T", "u": -2.0}]}
     n = 1 + int(_u(*key + ("n",)) * 6)
     path = []
     for i in range(n):
@@ -907,7 +988,9 @@ def linked_execute(case):
         if kind == "fluid":
             lo = 100.0
         model.append({"name": cname, "shape": shape, "kind": kind, "mat": matname, "ref": ref, "lo": lo, "hi": hi,
-                      "dims": dict(dims), "Tin": _temp(lo, hi, case["tin"][i]), "T": _temp(lo, hi, case["t0"][i])})
+                      "dims": dict(dims), "zeros": _zeros(matname) if kind == "solid" else (),
+                      "Tin": _temp(lo, hi, case["tin"][i], _zeros(matname) if kind == "solid" else ()),
+                      "T": _temp(lo, hi, case["t0"][i], _zeros(matname) if kind == "solid" else ())})
         out.label("mat:" + matname)
     index = {mm_["name"]: i for i, mm_ in enumerate(model)}
 
@@ -1157,6 +1240,7 @@ def linked_execute(case):
             c.setProperties(_make_material(new[0], None) if op[2] % 2 else new[0])
             c.applyMaterialMassFracsToNumberDensities()
             mi["mat"], mi["ref"], mi["lo"], mi["hi"] = new
+            mi["zeros"] = _zeros(new[0])
             refmass.pop(i, None)
             if i in weights:
                 weights[i] = _weights(sorted(c.getNumberDensities()))
@@ -1165,7 +1249,7 @@ def linked_execute(case):
                 out.label("material-exchange:expansion-differs")
             out.label("op:material-exchange")
         elif op[0] == "T":
-            t_new = _temp(mi["lo"], mi["hi"], op[2])
+            t_new = _temp(mi["lo"], mi["hi"], op[2], mi["zeros"])
             if mi["kind"] == "solid" and t_new != mi["Tin"] and dll(i, t_new) == dll(i, mi["Tin"]):
                 out.label("skipped:flat-dLL")
                 continue
@@ -1300,7 +1384,7 @@ def shared_execute(case):
         name = SOLIDS[spec["mat"] % len(SOLIDS)]
         ref = _make_material(name, None)
         lo, hi, _st = _window(ref, "solid")
-        t_in, t0 = _temp(lo, hi, spec["tin"]), _temp(lo, hi, spec["t0"])
+        t_in, t0 = _temp(lo, hi, spec["tin"], _zeros(name)), _temp(lo, hi, spec["t0"], _zeros(name))
         sub = {"scale": spec["scale"], "q": spec["q"], "mult": spec["mult"], "nHoles": 7}
         args = dict(name="c%d" % i, material=_make_material(name, None), Tinput=t_in, Thot=t0)
         args.update(_cold_dims(shape, sub))
@@ -1342,7 +1426,7 @@ def shared_execute(case):
     for k, op in enumerate(case["ops"]):
         i = op["c"] % len(comps)
         mi = models[i]
-        t_new = _temp(mi["lo"], mi["hi"], op["u"])
+        t_new = _temp(mi["lo"], mi["hi"], op["u"], _zeros(mi["mat"]))
         if abs(t_new - mi["T"]) >= 50.0 and dll(i, t_new) != dll(i, mi["T"]):
             nontrivial = True
         comps[i].setTemperature(t_new)
